@@ -38,7 +38,7 @@
 From Coq Require Import List NArith ZArith Bool.
 From PB Require Import Base.PBytes Wire.WireModel.
 From PB Require Import Msg.MsgSchema Msg.MsgValue Msg.MsgEnc Msg.MsgDec Msg.MsgExample.
-From PB Require Import Msg.ValidateMsgModel Msg.ValidateMsgP Msg.DecTotalP Msg.InitSoundP.
+From PB Require Import Msg.ValidateMsgModel Msg.ValidateMsgP Msg.DecTotalP Msg.InitSoundP Msg.ValidateStackP.
 Import ListNotations.
 Open Scope N_scope.
 
@@ -106,6 +106,27 @@ Theorem C06_validate_initialized_sound :
     msg_check_init S tid v = true.
 Proof. exact is_validate_initialized_sound. Qed.
 Print Assumptions C06_validate_initialized_sound.
+
+(* The explicit-stack state machine of MessageInfo.validate ([vm_run], executed next to the
+   recursive validator on every case) vs the recursive validator, _partial: proved field by
+   field -- the action the machine takes for one field of a message/group state (skip, push a
+   state, fail) is the recursive step [vr_step], and for one field of a map-entry state it is
+   one iteration of [vr_entry]; its fast paths are protowire.ConsumeVarint.  Missing for
+   [C06_validate_stack_eq_recursive]: the induction over the stack (push = call, pop = return)
+   and the fuel bound; whole-run equality is checked by execution only. *)
+Theorem C06_validate_stack_field_eq_recursive_partial :
+  forall (reqof : nat -> bool) (md : mdesc) (vsub : vr_t) (vsub2 : option vr_t) (num typ : N) (r : list byte),
+    vs_step_rel reqof md vsub vsub2 num typ r
+                (vm_field_action (vs_vt_of md num) num typ r) (vr_step reqof md vsub vsub2 num typ r).
+Proof. exact vs_step_action. Qed.
+Print Assumptions C06_validate_stack_field_eq_recursive_partial.
+
+Theorem C06_validate_stack_fastpaths :
+  forall b : list byte,
+    vm_fast_varint b = match dec_varint b with Ok (v, r) => Some (v, r) | Err _ => None end /\
+    vm_skip_varint b = match dec_varint b with Ok (_, r) => Some r | Err _ => None end.
+Proof. exact (fun b => conj (vs_fast_varint b) (vs_skip_varint b)). Qed.
+Print Assumptions C06_validate_stack_fastpaths.
 
 (* ---------- refutations of the unrestricted statements (findings) ---------- *)
 (* FWB4: a map field occurring as VARINT at recursion limit 1: Valid, but Unmarshal fails *)
